@@ -107,7 +107,7 @@ def outcome? (s : String) : Option SecChain.Outcome :=
 
 def quirks? (j : Json) : Option SecChain.Quirks :=
   match j.getObjVal? "quirks" with
-  | .ok (.str "fixed") => some SecChain.Quirks.fixed
+  | .ok (.str "legacy") => some ⟨true, true, true, true⟩
   | .ok (.str "current") => some SecChain.Quirks.current
   | .ok v => do
     some ⟨← getBool? v "d15", ← getBool? v "d16", ← getBool? v "d22", (getBool? v "d29").getD true⟩
